@@ -879,4 +879,90 @@ theorem labels_is (h : WellFormedWs norm w) {v : View} {L} (hc : ChainIs norm v.
 theorem mergedD_cons (ds : List Decl) (Ls : List (List Decl)) :
     mergedD norm (ds :: Ls) = liveD norm ds ++ (mergedD norm Ls).filter (fun y => !(ds.any (fun x => norm x.id = norm y.id))) := rfl
 
+/-! ### eval types: the tables consulted while a file is being annotated satisfy the invariant too -/
+
+def NowWF (now : Option (String × Tab)) : Prop := ∀ p, now = some p → p.2.sc.WF norm
+
+theorem rootNow_wf {now : Option (String × Tab)} (hn : NowWF norm now) (e : Entity) :
+    (rootNow norm now e).sc.WF norm := by
+  unfold rootNow
+  cases now with
+  | none => exact (annotate_tables_wf norm e).1
+  | some p =>
+    obtain ⟨stem, t⟩ := p
+    simp only
+    split
+    · exact hn (stem, t) rfl
+    · exact (annotate_tables_wf norm e).1
+
+theorem parents_now_wf {now : Option (String × Tab)} (hn : NowWF norm now) : ∀ (f : Nat) (p : Option String),
+    ChainWF norm (parents norm w now f p)
+  | 0, _ => fun _ h => by simp [parents] at h
+  | _+1, none => fun _ h => by simp [parents] at h
+  | f+1, some p => by
+    simp only [parents]
+    cases index norm w p with
+    | none => intro _ h; simp at h
+    | some a =>
+      intro s hs
+      rcases List.mem_cons.mp hs with rfl | hs
+      · exact rootNow_wf norm hn a
+      · exact parents_now_wf hn f _ s hs
+
+theorem viewRoot_now_wf {now : Option (String × Tab)} (hn : NowWF norm now) {r : Tab} (hr : r.sc.WF norm) :
+    ChainWF norm (viewRoot norm w now r).chain := by
+  intro s hs
+  simp only [viewRoot] at hs
+  rcases List.mem_cons.mp hs with rfl | hs
+  · exact hr
+  · exact parents_now_wf norm w hn _ _ s hs
+
+theorem stAt_wf (e : Entity) (t : Nat) : (stAt norm e t).WF norm := run_wf norm _ (init_wf norm)
+
+theorem viewCur_wf (stem : String) {s : St} (hs : s.WF norm) : ChainWF norm (viewCur norm w stem s).chain := by
+  have hn : NowWF norm (some (stem, s.root)) := by
+    intro p hp; simp only [Option.some.injEq] at hp; subst hp; exact hs.1
+  unfold viewCur
+  cases hc : s.cur with
+  | none => exact viewRoot_now_wf norm w hn hs.1
+  | some c =>
+    intro x hx
+    rcases List.mem_cons.mp hx with rfl | hx
+    · exact hs.2.1 c hc
+    · exact viewRoot_now_wf norm w hn hs.1 x hx
+
+theorem service_wf {ec : EC} (hs : ec.st.WF norm) {name : String} {v : View}
+    (h : service norm w ec name = some v) : ChainWF norm v.chain := by
+  have hn : NowWF norm ec.now := by
+    intro p hp; simp only [EC.now, Option.some.injEq] at hp; subst hp; exact hs.1
+  unfold service at h
+  cases hi : index norm w name with
+  | none => simp [hi] at h
+  | some e =>
+    simp only [hi, Option.map_some, Option.some.injEq] at h
+    subst h
+    exact viewRoot_now_wf norm w hn (rootNow_wf norm hn e)
+
+theorem getSym_case {c : Chain} (h : ChainWF norm c) {id id' : String} (e : norm id = norm id') :
+    getSymbolInfo norm c id = getSymbolInfo norm c id' := by
+  rw [Gold.C18.lookup_wf norm h, Gold.C18.lookup_wf norm h, e]
+
+/-- the class index folds its key -/
+theorem index_case {n n' : String} (e : norm n = norm n') : index norm w n = index norm w n' := by
+  simp only [index, e]
+
+theorem searchSymW_case {ec : EC} (hs : ec.st.WF norm) {v : View} (hv : ChainWF norm v.chain)
+    {id id' : String} (e : norm id = norm id') (b : Bool) :
+    searchSymW norm w ec v id b = searchSymW norm w ec v id' b := by
+  unfold searchSymW
+  rw [searchW_case norm hv e]
+  have : v.uses.findSome? (fun u => (service norm w ec u).bind (fun uv => searchWParent norm uv.chain id))
+      = v.uses.findSome? (fun u => (service norm w ec u).bind (fun uv => searchWParent norm uv.chain id')) := by
+    apply findSome?_congr'
+    intro u _
+    cases hsv : service norm w ec u with
+    | none => rfl
+    | some uv => simp only [Option.bind_some]; exact searchW_case norm (service_wf norm w hs hsv) e
+  rw [this]
+
 end Gold.Scope
